@@ -29,7 +29,8 @@ type Behav struct {
 }
 
 // ScriptStep is one further call of a CallProgressive's sendProg callback: after D ms it returns a
-// chunk with progress=true ("chunk"), the final chunk ("final") or an error ("err"); "ctx" waits
+// chunk with progress=true ("chunk"), the final chunk ("final": progress=false, "unset": options
+// without progress, which the documentation allows for the last chunk) or an error ("err"); "ctx" waits
 // for the caller's context to end and returns its error. The first call (made by the API
 // goroutine) returns at once, with progress=true iff the script is not empty; when the script
 // is used up the next call returns the final chunk at once.
